@@ -643,6 +643,49 @@ func checkC09(w *SketchWorld, slot int) (fails []mc.Fail) {
 	if after := ObserveSketch(sl.P); after != before {
 		fail("C09.pure", "ToProto/EncodeProto changed the observable state")
 	}
+	// rebuilt into stores that were used and then cleared (a recycling provider):
+	// the same bins as into new stores
+	if !md.Approx {
+		recycle := func() store.Store {
+			st := store.NewBufferedPaginatedStore()
+			for _, ms := range []*model.MapStore{md.Pos, md.Neg} {
+				for _, k := range ms.Keys() {
+					st.AddWithCount(k, 2)
+					st.Add(k + 1)
+				}
+			}
+			st.Clear()
+			return st
+		}
+		if dec, err := ddsketch.FromProtoWithStoreProvider(&back, recycle); err != nil {
+			fail("C09.round-trip", "FromProtoWithStoreProvider with cleared paginated stores failed: %v", err)
+		} else if got, want := SketchContent(dec), expectedContent(Kind{K: 'P'}, md); got != want {
+			fail("C09.round-trip", "rebuilt from the message into paginated stores that had been used and cleared\n  got:  %s\n  want: %s", got, want)
+		}
+	}
+	// the message is a snapshot: what happens to the sketch afterwards (additions,
+	// Clear and reuse) does not reach a message taken before
+	{
+		held := sl.P.ToProto()
+		raw1, _ := proto.Marshal(held)
+		for _, e := range md.Ent {
+			sl.P.AddWithCount(e.V, 2)
+		}
+		sl.P.Add(1)
+		sl.P.Add(-1)
+		raw2, _ := proto.Marshal(held)
+		sl.P.Clear()
+		sl.P.Add(1)
+		sl.P.AddWithCount(-1, 3)
+		raw3, _ := proto.Marshal(held)
+		var m1, m2, m3 sketchpb.DDSketch
+		proto.Unmarshal(raw1, &m1)
+		proto.Unmarshal(raw2, &m2)
+		proto.Unmarshal(raw3, &m3)
+		if !proto.Equal(&m1, &m2) || !proto.Equal(&m1, &m3) {
+			fail("C09.round-trip", "a message taken from the sketch changed when the sketch was used afterwards\n  as taken:              %v\n  after additions:       %v\n  after Clear and reuse: %v", &m1, &m2, &m3)
+		}
+	}
 	return
 }
 
